@@ -149,22 +149,48 @@ func (p *Program) NewLabel() Label {
 // Assemble resolves all jump destinations to concrete instructions using the labels.
 // This method takes care of long jumps and resolves them by using early returns or unconditional long jumps.
 func (p *Program) Assemble() ([]bpf.Instruction, error) {
-	for _, jump := range p.jumps {
+	// The jumps are resolved from the last one to the first one, and the
+	// instructions that bridge a long jump are inserted directly behind the
+	// jump they belong to. That way an insertion only moves instructions that
+	// follow the jump that is being resolved: the distances of the jumps that
+	// have been resolved before do not change anymore.
+	for i := len(p.jumps) - 1; i >= 0; i-- {
+		jump := p.jumps[i]
 		// This is safe since we are only accessing instructions that were inserted as bpf.JumpIf.
 		jumpInst := p.instructions[jump.index].(bpf.JumpIf)
 
-		skip, err := p.resolveLabel(jump, jump.trueLabel)
+		skipTrue, err := p.computeSkipN(jump, jump.trueLabel)
 		if err != nil {
 			return nil, err
 		}
-		jumpInst.SkipTrue = skip
-
-		skip, err = p.resolveLabel(jump, jump.falseLabel)
+		skipFalse, err := p.computeSkipN(jump, jump.falseLabel)
 		if err != nil {
 			return nil, err
 		}
-		jumpInst.SkipFalse = skip
 
+		// BPF does not support long conditional jumps. A bridge for one
+		// branch moves the destination of the other branch by one.
+		longTrue := skipTrue > math.MaxUint8
+		longFalse := skipFalse > math.MaxUint8
+		if longTrue != longFalse && (skipTrue == math.MaxUint8 || skipFalse == math.MaxUint8) {
+			longTrue, longFalse = true, true
+		}
+		if longTrue && longFalse {
+			// The second bridge is inserted in front of the first one, which
+			// moves the first one together with its destination.
+			p.insertBridge(jump.index+1, jump, jump.falseLabel)
+			p.insertBridge(jump.index+1, jump, jump.trueLabel)
+			skipTrue, skipFalse = 0, 1
+		} else if longTrue {
+			p.insertBridge(jump.index+1, jump, jump.trueLabel)
+			skipTrue, skipFalse = 0, skipFalse+1
+		} else if longFalse {
+			p.insertBridge(jump.index+1, jump, jump.falseLabel)
+			skipTrue, skipFalse = skipTrue+1, 0
+		}
+
+		jumpInst.SkipTrue = uint8(skipTrue)
+		jumpInst.SkipFalse = uint8(skipFalse)
 		if jumpInst.SkipTrue == 0 && jumpInst.SkipFalse == 0 {
 			return nil, fmt.Errorf("useless jump found")
 		}
@@ -175,49 +201,22 @@ func (p *Program) Assemble() ([]bpf.Instruction, error) {
 	return p.instructions, nil
 }
 
-// resolveLabel resolves the label to a short jump.
-func (p *Program) resolveLabel(jump JumpIf, label Label) (uint8, error) {
-	dest := p.labels[label]
-	skipN := p.computeSkipN(jump, label)
+// insertBridge inserts an instruction at the given index, directly behind the jump, that continues at the label.
+// If the jump destination is a return instruction, it is copied as an early return, if not, a long jump is inserted.
+func (p *Program) insertBridge(at Index, jump JumpIf, label Label) {
+	dest, _ := p.destination(jump, label)
 
-	for skipN < 0 {
-		dest = dest[1:]
-		if len(dest) == 0 {
-			return 0, fmt.Errorf("backward jumps are not supported")
+	// The destination moves by one when the bridge is inserted.
+	var bridge bpf.Instruction = bpf.Jump{Skip: uint32(dest - at)}
+	if int(dest) < len(p.instructions) {
+		if ret, ok := p.instructions[dest].(bpf.RetConstant); ok {
+			bridge = ret
 		}
-		p.labels[label] = dest
-		skipN = p.computeSkipN(jump, label)
 	}
 
-	// BPF does not support long conditional jumps.
-	if skipN > math.MaxUint8 {
-		insertAfter := findInsertAfter(p.jumps, jump)
-
-		// If the jump destination is a return instruction, copy it and add an early return,
-		// if not, insert a long jump.
-		jumpDest := p.instructions[dest[0]]
-		if _, ok := jumpDest.(bpf.RetConstant); !ok {
-			jumpDest = bpf.Jump{Skip: uint32(skipN - int(insertAfter.index))}
-		}
-
-		insertIndex := p.insertAfter(insertAfter.index, jumpDest)
-		p.labels[label] = append([]Index{insertIndex}, dest...)
-		skipN = p.computeSkipN(jump, label)
-	}
-	return uint8(skipN), nil
-}
-
-// Inserts the instruction after the instruction indicated by index, which must come from p.jumps.
-func (p *Program) insertAfter(index Index, inst bpf.Instruction) Index {
-	// This is safe since we are only accessing instructions that were inserted as bpf.JumpIf.
-	jumpInst := p.instructions[index].(bpf.JumpIf)
-	p.instructions[index] = jumpInst
-
-	index++
-	p.instructions = append(p.instructions[:index+1], p.instructions[index:]...)
-	p.instructions[index] = inst
-	p.updateIndices(index)
-	return index
+	p.instructions = append(p.instructions[:at+1], p.instructions[at:]...)
+	p.instructions[at] = bridge
+	p.updateIndices(at)
 }
 
 // After inserting a new instruction into the instruction list, the indices are wrong.
@@ -229,35 +228,33 @@ func (p *Program) updateIndices(after Index) {
 		}
 	}
 
-	for _, v := range p.labels {
-		for i := range v {
-			if v[i] >= after {
-				v[i]++
+	for label := range p.labels {
+		for i := range p.labels[label] {
+			if p.labels[label][i] >= after {
+				p.labels[label][i]++
 			}
 		}
 	}
 }
 
-// Computes the number of instructions to skip by resolving the label.
-// It might be that the jump is a long jump.
-func (p *Program) computeSkipN(jump JumpIf, label Label) int {
-	dest := p.labels[label]
-	return int(dest[0]-jump.index) - 1
-}
-
-// To insert a new instruction into the instruction list, the furthest jump instruction within
-// a short jump is searched.
-// It is necessary to search a jump instruction to jump over the new inserted instruction
-// and do not disturb the program flow.
-func findInsertAfter(jumps []JumpIf, currentJump JumpIf) JumpIf {
-	insertAfter := currentJump
-	maxIndex := currentJump.index + 255
-	for _, jump := range jumps {
-		if jump.index < maxIndex {
-			insertAfter = jump
+// destination returns the index of the instruction the label marks behind the jump.
+func (p *Program) destination(jump JumpIf, label Label) (Index, error) {
+	for _, index := range p.labels[label] {
+		if index > jump.index {
+			return index, nil
 		}
 	}
-	return insertAfter
+	return 0, fmt.Errorf("backward jumps are not supported")
+}
+
+// Computes the number of instructions to skip by resolving the label.
+// It might be that the jump is a long jump.
+func (p *Program) computeSkipN(jump JumpIf, label Label) (int, error) {
+	dest, err := p.destination(jump, label)
+	if err != nil {
+		return 0, err
+	}
+	return int(dest-jump.index) - 1, nil
 }
 
 // Calculate the index of the current instruction.
